@@ -541,6 +541,25 @@ def run(ctx):
             run_inverse(ctx, alg, A, d, nd)
             run_wrappers(ctx, alg, A, d)
     run_malformed(ctx, nd)
+    # matrices handed out are values of their own: a caller that overwrites one must not change later answers
+    for alg, A in ALGS.items():
+        for d in (dims(alg, ctx.tier)[:6]):
+            for S in (ES.TWO_SIDED, ES.RIGHT):
+                st, M1, _ = call1(A.get_inversion_matrix, d, sidedness=S)
+                if st != "ok":
+                    continue
+                ref = np.array(M1, copy=True)
+                try:
+                    M1 *= 0.5
+                    M1[0, :] = 7.0
+                except ValueError:
+                    pass                      # a read-only matrix is fine too
+                st2, M2, _ = call1(A.get_inversion_matrix, d, sidedness=S)
+                ctx.count(f"matrix-aliasing {alg} {d} {S.name}", branch="matrix-aliasing")
+                if st2 != "ok" or not np.array_equal(np.asarray(M2), ref):
+                    ctx.fail({"op": "matrix-aliasing", "alg": alg, "d": d, "side": S.name},
+                             "the inversion matrix changed after a caller overwrote an earlier result",
+                             "get_inversion_matrix gives the inverse matrix on every call", where=f"inversion-matrix-aliased-{alg}")
     ctx.count("positional-sidedness", branch="positional-sidedness")
     for mm in POSITIONAL_MISMATCH:
         ctx.fail(dict(mm, op="positional-sidedness"), f"keyword {mm['keyword']} vs positional {mm['positional']}",
